@@ -390,6 +390,10 @@ impl<'a> LTr<'a> {
                 let v = self.opt_tmp(&format!("Rs.IoRes.unwrap {recv}"));
                 return Ok((v, (**inner).clone()));
             }
+            (LTy::Opt(inner), "expect") | (LTy::Opt(inner), "unwrap") if args.len() == (name == "expect") as usize => {
+                let v = self.opt_tmp(&recv);
+                return Ok((v, (**inner).clone()));
+            }
             (LTy::Bytes, "is_empty") if args.is_empty() => return Ok((format!("(Rs.isEmpty {recv})"), LTy::Bool)),
             (LTy::Bytes, "into_bytes") if args.is_empty() => return Ok((recv, LTy::Bytes)),
             (LTy::Bytes, "len") if args.is_empty() => return Ok((format!("(Rs.len {recv})"), self.int("UInt64"))),
@@ -407,6 +411,14 @@ impl<'a> LTr<'a> {
                 let body = match args[0] {
                     Expr::Closure(c) if c.inputs.is_empty() => &*c.body,
                     _ => return Err("ok_or_else argument".into()),
+                };
+                // `|| { value }`
+                let body = match body {
+                    Expr::Block(b) if b.block.stmts.len() == 1 => match &b.block.stmts[0] {
+                        Stmt::Expr(e, None) => e,
+                        _ => return Err("ok_or_else argument".into()),
+                    },
+                    other => other,
                 };
                 let (e, _) = self.pure_expr(body)?;
                 return Ok((format!("(Rs.L.okOr {recv} {e})"), LTy::Io(inner.clone())));
@@ -548,13 +560,40 @@ impl<'a> LTr<'a> {
         let args: Vec<&Expr> = c.args.iter().collect();
         let last = segs.last().cloned().unwrap_or_default();
         if segs.len() == 1 {
-            if let Some((lean, ret)) = ext_free(&last) {
+            if let Some((lean, ret, partial)) = ext_free(&last) {
                 let mut call = lean.to_string();
                 for a in &args {
                     call += &format!(" {}", self.expr(a)?.0);
                 }
+                if partial {
+                    let v = self.opt_tmp(&call);
+                    return Ok((v, ret));
+                }
                 return Ok((format!("({call})"), ret));
             }
+        }
+        // the generic arguments of the last path segment, as text
+        let turbofish = match &*c.func {
+            Expr::Path(p) => match &p.path.segments.last().unwrap().arguments {
+                PathArguments::AngleBracketed(a) => { let ts = &a.args; quote::quote!(#ts).to_string() }
+                _ => String::new(),
+            },
+            _ => String::new(),
+        };
+        if let Some(lean) = ext_fill(&segs, &turbofish) {
+            let (out, rest) = args.split_last().ok_or("vocabulary call arity")?;
+            let mut call = lean.to_string();
+            for a in rest {
+                call += &format!(" {}", self.expr(a)?.0);
+            }
+            if !matches!(out, Expr::Reference(r) if r.mutability.is_some()) {
+                return Err("output buffer of a vocabulary call".into());
+            }
+            let (bv, wb) = self.buf_arg(out)?;
+            let nb = self.fresh();
+            self.emit(format!("let {nb} := {call} {bv}"));
+            self.write_back(wb, nb)?;
+            return Ok(("()".into(), LTy::Unit));
         }
         if segs.len() == 1 && !self.failed.contains(&last) {
             // a translated free function
